@@ -1,5 +1,6 @@
 /-
-C20 — specification oracle.  `judgeEv` sees only the event trace (one `StepRec` per step: who did what, the
+C20 — specification oracle.  `judgeEv` sees only the event trace (one `StepRec` per SEGMENT = the events between two
+uid snapshots, in the context of the innermost running op; ops nest when a create() runs a script: who did what, the
 master's valid_seteuid verdict, creator_file answers and the uids each new object's create() saw, the result,
 getuid/geteuid of every registered object after the step) and decides whether property C20 held:
 
@@ -12,7 +13,8 @@ getuid/geteuid of every registered object after the step) and decides whether pr
            the creator has an euid - uid = euid = the creator's euid.  Without a creator_file call only
            reload_object (uid kept, euid 0) and the late initialisation of an object whose creation the master
            aborted (uid "NONAME", euid 0) may announce an object.
-  noeuid   an actor other than the master with euid 0 causes no creator_file call, and its clone fails
+  noeuid   an actor other than the master whose euid is 0 at that moment causes no creator_file call (nothing is
+           created on its behalf) - also when the actor is itself an object under construction running its create()
   export   export_uid returns 1 only from a caller with euid != 0 onto a target with euid 0; a caller with euid 0
            gets the error
   asked    a seteuid(string) of an existing object reaches the master with exactly that object and string
@@ -96,12 +98,7 @@ def noEuidClause (P : List Obj) (r : StepRec) : Bool :=
   match getO P r.actor with
   | none => true
   | some A =>
-    if r.actor ≠ masterOid ∧ A.euid = none then
-      r.creations.all (fun c => c.ans.isNone) &&
-      (match r.op, r.res with
-       | .clone _ _, some (.oid _) => false
-       | _, _ => true)
-    else true
+    if r.actor ≠ masterOid ∧ A.euid = none then r.creations.all (fun c => c.ans.isNone) else true
 
 def exportClause (P : List Obj) (r : StepRec) : Bool :=
   match r.op with
